@@ -32,10 +32,11 @@ def main():
     d = os.path.join(ROOT, f'c16_{os.getpid()}')
     shutil.rmtree(d, ignore_errors=True); os.makedirs(d)
     out = {'files': []}
+    os.chdir(d); sys.path.insert(0, d)        # as for the CLI runs below: imports between the files of the directory resolve
     try:
         for f in job['files']:
             p = os.path.join(d, f['name'])
-            open(p, 'w').write(f['src'])
+            with open(p, 'w', encoding=f.get('encoding', 'utf8')) as fh: fh.write(f['src'])
             r = {'name': f['name'], 'nlines': f['src'].count('\n') + 1, 'lens': [len(l) for l in f['src'].split('\n')]}
             try:
                 tree = ast.parse(f['src'])
@@ -66,11 +67,14 @@ def main():
             out['files'].append(r)
         if job.get('cli'):
             env = dict(os.environ, PYTHONPATH=os.environ.get('PYTHONPATH', ''))
-            for mode, flags in (('json', ['--json']), ('plain', ['--nocolor'])):
-                p = subprocess.run([sys.executable, '-m', 'deal', 'lint'] + flags + [d], stdout=subprocess.PIPE, stderr=subprocess.PIPE, text=True, env=env, cwd=d, timeout=1200)
+            # the documented entry points: `python -m deal lint` (JSON and plain) and its alias `python -m deal.linter`
+            for mode, flags in (('json', ['deal', 'lint', '--json']), ('plain', ['deal', 'lint', '--nocolor']), ('alias', ['deal.linter', '--nocolor'])):
+                # findings do not depend on the hash seed of the process: the alias runs under another one
+                if mode == 'alias': env = dict(env, PYTHONHASHSEED='1')
+                p = subprocess.run([sys.executable, '-m'] + flags + [d], stdout=subprocess.PIPE, stderr=subprocess.PIPE, text=True, env=env, cwd=d, timeout=1200)
                 out[mode] = {'status': p.returncode, 'stdout': p.stdout, 'stderr': p.stderr[-1500:]}
     finally:
-        shutil.rmtree(d, ignore_errors=True)
+        os.chdir(ROOT); shutil.rmtree(d, ignore_errors=True)
     json.dump(out, sys.stdout)
 
 
